@@ -55,6 +55,10 @@ type History struct {
 func (o Op) String() string {
 	var sb strings.Builder
 	switch o.Kind {
+	case "concinst":
+		fmt.Fprintf(&sb, "concinst rt%d: %d goroutines instantiate #%d..#%d (modules %v) at once, then #i.install(%d+i)", o.RT, o.N, o.Inst, o.Inst+o.N-1, o.Args, o.Idx)
+	case "closemany", "dropmany":
+		fmt.Fprintf(&sb, "%s %v", o.Kind, o.Args)
 	case "compile", "closecomp", "dropcomp":
 		fmt.Fprintf(&sb, "%s rt%d m%d", o.Kind, o.RT, o.Slot)
 		if o.H > 0 {
@@ -117,6 +121,7 @@ type mInst struct {
 	ref          bool // host holds the api.Module
 	held         int  // api.Function handles the host holds
 	collected    bool // unreachable at some forced GC
+	conc         bool // concurrently instantiated light importer: addressed only by the conc agenda
 	ghost        bool // instance of a module whose instantiation failed after its element segments were applied: never handed out, but its functions sit in the imported table
 	absent       bool // instantiation certainly (or, over-approximated, possibly) fails in the real world: no root, no edges, no steps
 	pt           []refInfo
@@ -346,6 +351,9 @@ type gen struct {
 	m         *model
 	agenda    []Op // follow-ups that make close -> collect -> use sequences likely
 	slotsDone [maxRT]int
+	concSlots []int // Conc module slots of this history
+	concOwner int   // slot of the table/memory exporter they import from
+	concSteps int
 	lastAnon  int // instance id of the latest anonymous instantiation (agenda ops with Inst == -1 refer to it)
 	engScen   int // 0 none, 1 pending, 2 done: close every compiled module, then the engine (cache / runtime) under live instances
 }
@@ -433,7 +441,30 @@ func GenHistory(seed uint64, compiler, avoidKnown bool) *History {
 	}
 	target := 8 + r.Intn(33)
 	h.Small = target <= 20
-	g := &gen{r: r, h: h, m: newModel(h)}
+	g := &gen{r: r, h: h, m: newModel(h), concOwner: -1}
+	if r.Chance(1, 6) { // concurrent instantiation of importers of one shared table
+		owner := 0
+		for j, sp := range h.Mods {
+			if sp.ExportTable {
+				owner = j
+				break
+			}
+		}
+		if h.Mods[owner].ImpTable < 0 && h.Mods[owner].Fail == 0 {
+			h.Mods[owner].ExportTable = true
+			if h.Mods[owner].ImpMem < 0 {
+				h.Mods[owner].PrivMem = false // its memory is imported by the concurrent importers
+			}
+			g.concOwner = owner
+			for k, n := 0, 1+r.Intn(2); k < n; k++ {
+				g.concSlots = append(g.concSlots, len(h.Mods))
+				h.Mods = append(h.Mods, ModSpec{K: 1 + len(h.Mods) + 10*r.Intn(9), ImpFunc: -1, ImpGlobal: -1, ImpMem: owner, ImpTable: owner, Conc: true})
+			}
+			g.m = newModel(h)
+			target += 24
+			h.Small = false
+		}
+	}
 	if r.Chance(1, 5) {
 		g.engScen = 1
 	}
@@ -468,7 +499,7 @@ func (g *gen) emit(op Op) {
 func (g *gen) addressable(pred func(*mInst) bool) []int {
 	var out []int
 	for _, in := range g.m.inst {
-		if in.ref && !in.absent && (pred == nil || pred(in)) {
+		if in.ref && !in.absent && !in.conc && (pred == nil || pred(in)) {
 			out = append(out, in.id)
 		}
 	}
@@ -501,6 +532,9 @@ func (g *gen) next(i, target int) (Op, bool) {
 			return Op{Kind: "compile", RT: rt, Slot: slot}, true
 		}
 		g.slotsDone[rt]++
+		if spec.Conc { // compiled only; instantiated by concinst steps
+			return Op{}, false
+		}
 		if spec.Fail > 0 {
 			g.failAgenda(rt, slot, spec)
 		}
@@ -529,6 +563,9 @@ func (g *gen) next(i, target int) (Op, bool) {
 	if !pendingSlots && g.engScen == 1 && len(m.inst) > 0 && r.Chance(1, 3) {
 		g.engScen = 2
 		g.engineCloseAgenda()
+	}
+	if op, ok := g.genConcInst(pendingSlots); ok {
+		return op, true
 	}
 	// 2. agenda follow-ups
 	if len(g.agenda) > 0 && r.Chance(3, 5) {
@@ -650,7 +687,7 @@ func (g *gen) engineCloseAgenda() {
 	}
 	var live []int
 	for _, in := range m.inst {
-		if in.ghost || in.absent || !in.ref {
+		if in.ghost || in.absent || !in.ref || in.conc {
 			continue
 		}
 		if m.spec(in.id).Implicit {
@@ -690,6 +727,62 @@ func (g *gen) engineCloseAgenda() {
 		ag = append(ag, uses(id)[:2]...)
 	}
 	g.agenda = append(ag, g.agenda...)
+}
+
+// genConcInst: K importers of the owner's shared table (and memory) instantiated at once from K goroutines, each
+// installing its own function into a distinct slot; then a PRNG subset is closed, dropped and collected, and the
+// survivors and the exporter call through every slot.
+func (g *gen) genConcInst(pendingSlots bool) (Op, bool) {
+	r, m := g.r, g.m
+	if len(g.concSlots) == 0 || pendingSlots || g.concSteps >= 3 || m.cacheCl || !r.Chance(1, 2) {
+		return Op{}, false
+	}
+	rt := 0
+	owner := m.named[rt][g.concOwner]
+	if owner < 0 || m.isClosed(owner) || m.inst[owner].absent || !m.inst[owner].ref {
+		return Op{}, false
+	}
+	for _, cs := range g.concSlots {
+		if c := m.comp[rt][cs]; !c.exists || c.closed || c.dropped {
+			return Op{}, false
+		}
+	}
+	g.concSteps++
+	k := 4 + r.Intn(13)
+	base := 4 + r.Intn(stMin-4-k+1)
+	op := Op{Kind: "concinst", RT: rt, Slot: g.concSlots[0], N: k, Idx: base, Inst: len(m.inst)}
+	for i := 0; i < k; i++ {
+		op.Args = append(op.Args, uint64(g.concSlots[r.Intn(len(g.concSlots))]))
+	}
+	var victims, survivors []uint64
+	for i := 0; i < k; i++ {
+		if r.Chance(3, 5) {
+			victims = append(victims, uint64(op.Inst+i))
+		} else {
+			survivors = append(survivors, uint64(op.Inst+i))
+		}
+	}
+	sum := func(id int) Op {
+		return Op{Kind: "call", Inst: id, Name: "st_sum", Args: []uint64{uint64(base), uint64(k)}}
+	}
+	ag := []Op{sum(owner)}
+	if len(victims) > 0 {
+		ag = append(ag, Op{Kind: "closemany", Args: victims}, Op{Kind: "dropmany", Args: victims})
+	}
+	if g.concSteps >= 2 && r.Chance(1, 2) { // no later concinst step needs the compiled modules only when this was the last one
+		for _, cs := range g.concSlots {
+			if r.Bool() {
+				ag = append(ag, Op{Kind: "closecomp", RT: rt, Slot: cs}, Op{Kind: "dropcomp", RT: rt, Slot: cs})
+			}
+		}
+	}
+	ag = append(ag, Op{Kind: "gc"}, Op{Kind: "churn", N: 200 + r.Intn(600)}, Op{Kind: "gc"}, sum(owner))
+	if len(survivors) > 0 {
+		ag = append(ag, sum(int(survivors[r.Intn(len(survivors))])))
+	}
+	ag = append(ag, Op{Kind: "call", Inst: owner, Name: "st_call", Args: []uint64{uint64(base + r.Intn(k))}})
+	g.agenda = append(g.agenda, ag...)
+	return op, true
 }
 
 // shareAgenda: (rt, slot, h) is about to be compiled. If another still open
@@ -763,7 +856,7 @@ func (g *gen) failAgenda(rt, slot int, spec ModSpec) {
 	}
 	var users []int
 	for _, in := range m.inst {
-		if !in.ghost && !in.absent && in.ref && m.tableOwner(in.id) == owner {
+		if !in.ghost && !in.conc && !in.absent && in.ref && m.tableOwner(in.id) == owner {
 			users = append(users, in.id)
 		}
 	}
@@ -994,7 +1087,7 @@ func (g *gen) genCall(withAct bool) (Op, bool) {
 	case "pt_call", "pt_isnull":
 		op.Args = []uint64{uint64(r.Intn(len(m.inst[id].pt) + 1))}
 	case "st_call", "st_isnull":
-		op.Args = []uint64{uint64(r.Intn(stMin))}
+		op.Args = []uint64{uint64(r.Intn(4))}
 	case "pt_copy_call":
 		op.Args = []uint64{uint64(r.Intn(4)), uint64(r.Intn(4))}
 	case "mem_rw", "gi_set", "mk_set":
@@ -1021,7 +1114,7 @@ func (g *gen) genSubs(entry int) []Op {
 			if r.Bool() {
 				var same []int
 				for _, in := range m.inst {
-					if in.rt == rt && in.ref && !in.absent && !droppedHere[in.id] {
+					if in.rt == rt && in.ref && !in.absent && !in.conc && !droppedHere[in.id] {
 						same = append(same, in.id)
 					}
 				}
@@ -1061,7 +1154,7 @@ func (g *gen) genSubs(entry int) []Op {
 		default: // re-entrant observation call
 			var same []int
 			for _, in := range m.inst {
-				if in.rt == rt && in.ref && !in.absent && !droppedHere[in.id] {
+				if in.rt == rt && in.ref && !in.absent && !in.conc && !droppedHere[in.id] {
 					same = append(same, in.id)
 				}
 			}
@@ -1145,6 +1238,15 @@ func (m *model) applyLifecycle(op *Op, extraRoots ...int) {
 		m.anyClose = true
 		if m.spec(op.Inst).Implicit { // CodeCloser closes the implicit compiled module
 			m.comp[m.inst[op.Inst].rt][m.inst[op.Inst].slot].closed = true
+		}
+	case "closemany":
+		for _, id := range op.Args {
+			m.inst[id].closed = true
+		}
+		m.anyClose = true
+	case "dropmany":
+		for _, id := range op.Args {
+			m.inst[id].ref = false
 		}
 	case "closecomp":
 		m.c(op.RT, op.Slot, op.H).closed = true
@@ -1257,6 +1359,23 @@ func (g *gen) annotateAndApply(m *model, op *Op) {
 			op.UAC = append(op.UAC, "failed-instantiation-wrote-shared-table")
 		}
 		op.Mutates = true
+	case "concinst":
+		op.Observe, op.Mutates = true, true
+		owner := m.named[op.RT][g.h.Mods[op.Slot].ImpTable]
+		for i := 0; i < op.N; i++ {
+			slot := int(op.Args[i])
+			in := &mInst{id: op.Inst + i, rt: op.RT, slot: slot, ref: true, conc: true, fg: refInfo{prod: -1}}
+			cm := m.comp[op.RT][slot]
+			if m.rtClosed[op.RT] || m.rtDropped[op.RT] || m.cacheCl || !cm.exists || cm.closed || cm.dropped ||
+				owner < 0 || m.isClosed(owner) || m.inst[owner].absent {
+				in.absent = true
+			}
+			m.inst = append(m.inst, in)
+			if !in.absent {
+				m.setSlot(owner, "st", op.Idx+i, refInfo{prod: in.id, which: 6, channel: "installed-by-importer"})
+			}
+		}
+		op.RelClose = owner < 0 || m.relatedClosed(owner, nil)
 	case "passref":
 		op.Observe, op.Mutates = true, true
 		a, b := op.From, op.Inst
@@ -1369,6 +1488,12 @@ func (g *gen) annotateAndApply(m *model, op *Op) {
 		case "st_call":
 			if ri, ok := m.slotRef(id, "st", arg(0)); ok {
 				funcrefUse(ri, id)
+			}
+		case "st_sum":
+			for i := 0; i < arg(1); i++ {
+				if ri, ok := m.slotRef(id, "st", arg(0)+i); ok {
+					funcrefUse(ri, id)
+				}
 			}
 		case "call_imp", "call_impmk":
 			imported("imported-function-of-closed-instance", s.ImpFunc)
@@ -1523,6 +1648,26 @@ func ManualHistory(channel string, compiler bool) *History {
 			Op{Kind: "drop", Inst: 0}, Op{Kind: "gc"}, Op{Kind: "churn", N: 600}, Op{Kind: "gc"})
 		steps = append(steps, uses...)
 		for _, op := range steps {
+			g.emit(op)
+		}
+		h.NInst = len(g.m.inst)
+		return h
+	case "concurrent-importers":
+		a.ExportTable = true
+		h.Mods = []ModSpec{a, {K: 2, ImpFunc: -1, ImpGlobal: -1, ImpMem: 0, ImpTable: 0, Conc: true}}
+		g := &gen{h: h, m: newModel(h)}
+		sum := Op{Kind: "call", Inst: 0, Name: "st_sum", Args: []uint64{4, 12}}
+		ci := Op{Kind: "concinst", Slot: 1, N: 12, Idx: 4, Inst: 1}
+		var victims []uint64
+		for i := 0; i < 12; i++ {
+			ci.Args = append(ci.Args, 1)
+			if i != 5 {
+				victims = append(victims, uint64(1+i))
+			}
+		}
+		for _, op := range []Op{{Kind: "compile", Slot: 0}, {Kind: "inst", Slot: 0, Inst: 0, Name: "m0"}, {Kind: "compile", Slot: 1}, ci, sum,
+			{Kind: "closemany", Args: victims}, {Kind: "dropmany", Args: victims}, {Kind: "closecomp", Slot: 1}, {Kind: "dropcomp", Slot: 1},
+			{Kind: "gc"}, {Kind: "churn", N: 600}, {Kind: "gc"}, sum, {Kind: "call", Inst: 6, Name: "st_sum", Args: []uint64{4, 12}}} {
 			g.emit(op)
 		}
 		h.NInst = len(g.m.inst)
